@@ -709,7 +709,7 @@ fn input_of(class: &str, tape: &[u8]) -> Input {
     }
 }
 
-fn raw_input(text: &str) -> Input {
+pub fn raw_input(text: &str) -> Input {
     let mut input = Input::single("main", String::new());
     let mut cur: Option<usize> = None;
     for l in text.split_inclusive('\n') {
